@@ -78,6 +78,8 @@ def solve_lp(
 
     if any(matrix[i][-1] < -eps for i in range(m)):
         status, iters, matrix, basis, basis_set = _phase1(matrix, basis, basis_set, m, n, eps, max_iter)
+        if status == Status.MAX_ITER:
+            return Result(tuple([0.0] * n), float("inf"), iters, iters, Status.MAX_ITER)
         if status != Status.OPTIMAL:
             return Result(tuple([0.0] * n), float("inf"), iters, iters, Status.INFEASIBLE)
         max_iter -= iters
@@ -129,6 +131,9 @@ def _phase1(matrix, basis, basis_set, m, n, eps, max_iter):
     status, iters, matrix, basis, basis_set = _phase2(matrix, basis, basis_set, m, eps, max_iter)
 
     if matrix[-1][-1] < -eps:
+        if status == Status.MAX_ITER:
+            # Ran out of iterations before phase 1 finished: infeasibility is not established
+            return Status.MAX_ITER, iters, matrix, basis, basis_set
         return Status.INFEASIBLE, iters, matrix, basis, basis_set
 
     # Pivot out any artificial variables still in basis before removing columns
